@@ -19,6 +19,7 @@ def run(ctx: Ctx, chk) -> None:
     chk.run_rule(eea_send, ctx)
     chk.run_rule(not_a_message, ctx)
     chk.run_rule(outcome1, ctx)
+    chk.run_rule(key1, ctx)
     from . import c08
 
     chk.run_rule(lambda c, k: c08.write_then_forget(c, k, loss_only=True), ctx)
@@ -69,6 +70,43 @@ def drain1(ctx: Ctx, chk) -> None:
                     chk.ok(rule, key, f"drained by {drains[0].qualname} (iterates {fld} and sends)", ctx.loc(f, st))
                 else:
                     chk.refute(rule, key, f"a message sent with buffering allowed is parked in MessageBuffer.{fld} by {f.qualname} and no code path ever takes entries of {fld} to the transport: the message is silently never written", ctx.loc(f, st))
+
+
+def key1(ctx: Ctx, chk) -> None:
+    rule = "KEY-1"
+    chk.rule(rule, "a buffer keyed (node, child, type) holds messages of one command only: set_messages is stored into only by the outgoing handlers of command `set`, internal_messages only by those of command `internal` (type numbers of different commands overlap, so a message of another command parked there silently replaces - or is replaced by - a parked one)")
+    from . import sleepbuf as sb, tables
+    from ..prov import Canon
+
+    out_cells = tables.outgoing_cells(ctx)
+    owner = {"set_messages": "set", "internal_messages": "internal"}
+    n = 0
+    for attr, cmd in owner.items():
+        allowed = set()
+        others = {}
+        for V in ctx.versions:
+            for cell, cal in out_cells[V].items():
+                if cal is None:
+                    continue
+                for f in tables.chain_defs(ctx, cal, V):
+                    if cell == ("cmd", cmd):
+                        allowed.add(f)
+                    else:
+                        others.setdefault(f, set()).add(cell[1])
+        for f in ctx.prog.all_functions():
+            for st, key_e, _v in sb.store_sites(ctx, f, attr):
+                n += 1
+                chk.instance(rule)
+                k = fkey(f, st) + "::owner"
+                kc = Canon(ctx.I, f).canon(key_e) if key_e is not None else ""
+                if f in allowed and f not in others:
+                    chk.ok(rule, k, f"stored by the outgoing `{cmd}` handler only", ctx.loc(f, st), sample=n <= 2)
+                elif "In.command" in kc:
+                    chk.ok(rule, k, "the key includes the command", ctx.loc(f, st))
+                else:
+                    who = f"the outgoing handler of command {sorted(others[f])}" if f in others else f.qualname
+                    chk.refute(rule, k, f"{who} parks messages in {attr} under {kc or 'a key'}: a `{cmd}` command already parked under the same (node, child, type) is silently replaced and never written (or replaces this message)", ctx.loc(f, st))
+    chk.floor(rule, "stores into the sleep buffers", n, 2)
 
 
 def eea_send(ctx: Ctx, chk) -> None:
